@@ -164,7 +164,7 @@ def rule_PC3(ctx, rep):
     if block is None:
         raise AnalysisError('PC3: cannot locate the block holding the try statement')
     idx = [i for i, x in enumerate(block) if x is tr][0]
-    pre = block[:idx] + [s for s in tr.body if s.lineno < send.lineno and not astq._contains(s, send)]
+    pre = block[:idx] + [s for s in tr.body if astq.position(s) < astq.position(send) and not astq._contains(s, send)]
     # swap-in: <rt>._program_counter = self.pc
     swap = [s for s in pre if isinstance(s, ast.Assign) and any(_is_pc_attr(t) for t in s.targets)]
     if not swap:
@@ -206,7 +206,7 @@ def rule_PC3(ctx, rep):
                 if isinstance(n, ast.Name) and n.id == saved and isinstance(n.ctx, ast.Store):
                     rep.bad('PC3', fn, s, f'saved ambient counter {saved} is overwritten before it is restored')
     # save-back of own counter on the non-terminating path (else branch or after send in body)
-    after_send = [s for s in tr.body if s.lineno > send.lineno] + list(tr.orelse)
+    after_send = [s for s in tr.body if astq.position(s) > astq.position(send) and not astq._contains(s, send)] + list(tr.orelse)
     sb = [s for s in after_send if isinstance(s, ast.Assign) and _is_pc_attr(s.value)
           and any(isinstance(t, ast.Attribute) and t.attr == 'pc' and isinstance(t.value, ast.Name) and t.value.id == 'self' for t in s.targets)]
     if not sb:
